@@ -122,6 +122,12 @@ func (o *oracle) check(env *run5.Env, h hstate, q int) (viols []violation, done 
 			}
 		}
 	}
+	if !env.Runner.GetBaseRunner().VerifMutexFree() {
+		// no handler of the runner is executing here: a held state mutex was leaked, and the next
+		// duty's StartNewDuty (write lock) blocks for ever - no later duty is ever submitted
+		viols = append(viols, violation{sig: "runner-mutex-held-between-messages " + tag, what: "the runner's state mutex is still held after the handler returned: the next StartNewDuty blocks for ever, so no following duty of this validator and role can be signed or submitted",
+			observed: "BaseRunner.mtx held", expected: "free"})
+	}
 	done = true
 	for k, c := range count {
 		if c > 1 {
